@@ -233,53 +233,85 @@ func (e *expansionSingle) String() string {
 }
 
 func (e *expansionSingle) eval(cfg *Config, opts *options) (string, error) {
+	// the name, the referenced value and the right-hand side are evaluated in
+	// scopes of their own: the same variable may be used in several of them
+	parentFields := opts.activeFields
+	defer func() { opts.activeFields = parentFields }()
+
+	opts.activeFields = newFieldSet(parentFields)
 	path, err := e.evaler.eval(cfg, opts)
 	if err != nil {
 		return "", err
 	}
 
 	ref := newReference(parsePathWithOpts(path, opts))
+	opts.activeFields = newFieldSet(parentFields)
 	return ref.eval(cfg, opts)
 }
 
 func (e *expansionDefault) eval(cfg *Config, opts *options) (string, error) {
+	// the name, the referenced value and the right-hand side are evaluated in
+	// scopes of their own: the same variable may be used in several of them
+	parentFields := opts.activeFields
+	defer func() { opts.activeFields = parentFields }()
+
+	opts.activeFields = newFieldSet(parentFields)
 	path, err := e.left.eval(cfg, opts)
 	if err != nil || path == "" {
+		opts.activeFields = newFieldSet(parentFields)
 		return e.right.eval(cfg, opts)
 	}
 	ref := newReference(parsePath(path, e.pathSep, opts.maxIdx, opts.enableNumKeys, opts.escapePath))
+	opts.activeFields = newFieldSet(parentFields)
 	v, err := ref.eval(cfg, opts)
 	if err != nil || v == "" {
+		opts.activeFields = newFieldSet(parentFields)
 		return e.right.eval(cfg, opts)
 	}
 	return v, err
 }
 
 func (e *expansionAlt) eval(cfg *Config, opts *options) (string, error) {
+	// the name, the referenced value and the right-hand side are evaluated in
+	// scopes of their own: the same variable may be used in several of them
+	parentFields := opts.activeFields
+	defer func() { opts.activeFields = parentFields }()
+
+	opts.activeFields = newFieldSet(parentFields)
 	path, err := e.left.eval(cfg, opts)
 	if err != nil || path == "" {
 		return "", nil
 	}
 
 	ref := newReference(parsePath(path, e.pathSep, opts.maxIdx, opts.enableNumKeys, opts.escapePath))
+	opts.activeFields = newFieldSet(parentFields)
 	tmp, err := ref.resolve(cfg, opts)
 	if err != nil || tmp == nil {
 		return "", nil
 	}
 
+	opts.activeFields = newFieldSet(parentFields)
 	return e.right.eval(cfg, opts)
 }
 
 func (e *expansionErr) eval(cfg *Config, opts *options) (string, error) {
+	// the name, the referenced value and the right-hand side are evaluated in
+	// scopes of their own: the same variable may be used in several of them
+	parentFields := opts.activeFields
+	defer func() { opts.activeFields = parentFields }()
+
+	opts.activeFields = newFieldSet(parentFields)
 	path, err := e.left.eval(cfg, opts)
 	if err == nil && path != "" {
 		ref := newReference(parsePath(path, e.pathSep, opts.maxIdx, opts.enableNumKeys, opts.escapePath))
+		opts.activeFields = newFieldSet(parentFields)
 		str, err := ref.eval(cfg, opts)
 		if err == nil && str != "" {
 			return str, nil
 		}
 	}
 
+	opts.activeFields = newFieldSet(parentFields)
 	errStr, err := e.right.eval(cfg, opts)
 	if err != nil {
 		return "", err
